@@ -239,9 +239,15 @@ func (e *Engine) runHarness(fn *ssa.Function, h *HarnessDef, tier string) *Harne
 		ConcretizeCap: h.optInt("ccap", 64),
 		Workers:       h.optInt("workers", runtime.NumCPU()),
 	}
-	if s := h.optInt("deadline", 0); s > 0 {
-		e.cfg.Deadline = time.Now().Add(time.Duration(s) * time.Second)
+	// every harness has a wall-clock deadline (default 300 s quick / 2400 s thorough); running into it
+	// makes the harness inconclusive (reduced bound), never held and never violated
+	dl := h.optInt("deadline", map[bool]int{true: 2400, false: 300}[tier == "thorough"])
+	if s := os.Getenv("VERIF_DEADLINE"); s != "" {
+		if n, err := strconv.Atoi(s); err == nil {
+			dl = n
+		}
 	}
+	e.cfg.Deadline = time.Now().Add(time.Duration(dl) * time.Second)
 	e.noMerging = noMergingFlag || h.opt("merge", "0") != "1"
 	e.ifConv = h.opt("ifconv", "0") == "1" && !noIfConvFlag
 	t0 := time.Now()
@@ -522,7 +528,13 @@ func runGroup(sel []*HarnessDef, tier, propID string, doReplay bool, cb groupCB)
 				ev.Reached = append(ev.Reached, k)
 			}
 			sort.Strings(ev.Reached)
-			for _, m := range expectedMarkers(h) {
+			exp := expectedMarkers(h)
+			if need := h.opt("need", ""); need != "" {
+				for _, m := range strings.Split(need, "|") {
+					exp = append(exp, strings.ReplaceAll(m, "_", " "))
+				}
+			}
+			for _, m := range exp {
 				if _, ok := r.Reached[m]; !ok {
 					ev.MissingMarker = append(ev.MissingMarker, m)
 				}
@@ -701,9 +713,10 @@ func cmdCheck(args []string) int {
 		"package init executed leniently and concretely; values init could not compute are opaque and cut any path that reads them",
 	}
 	ev.WallS = time.Since(t0).Seconds()
-	os.MkdirAll(filepath.Join(verifDir, "evidence"), 0o755)
+	evDir := envOr("VERIF_EVIDENCE_DIR", filepath.Join(verifDir, "evidence"))
+	os.MkdirAll(evDir, 0o755)
 	data, _ := json.MarshalIndent(ev, "", " ")
-	os.WriteFile(filepath.Join(verifDir, "evidence", prop+".json"), append(data, '\n'), 0o644)
+	os.WriteFile(filepath.Join(evDir, prop+".json"), append(data, '\n'), 0o644)
 	fmt.Printf("property=%s tier=%s harnesses=%d paths=%d queries=%d violations=%d wall=%.1fs\n", prop, tier, len(cov.Harnesses), cov.States, cov.Queries["total"], ev.Violations, ev.WallS)
 	return exit
 }
